@@ -53,7 +53,7 @@ CONSTANTS
 VARIABLES tmode, topen, tlastm, tcache, tlatest, tterm, tnfault, tnpk, tact           \* TtxAssembly
 VARIABLES xcnt, xbuf, xchk, xcur, xout, xmaxidx, xtx, xtxcur, xref, xinfo, xcyc, xevs, xnev, xact   \* Xds
 VARIABLES alast, acycle, anuid, acache, aevs, aprev, awlast, awrep, aaspect, awrun, axcall, axrun, anrecv, aact,   \* Announce
-          avpid, ahmask, ahorder, avseen, aann, anreg    \* Announce: VPS label, its own handler list (fixed: one handler for all types), ghosts
+          avpid, ahmask, ahorder, avseen, aann, anreg, acd, agap    \* (acd, agap: Announce's own drop-out countdown, never armed here) Announce: VPS label, its own handler list (fixed: one handler for all types), ghosts
 VARIABLES hl, hrec, hnextid, emask, hdl, hlog, hntop, hfreed, hact, htx, htxok, hnprobe                     \* TtxEvents
 \* ---- own variables
 VARIABLES pc,        \* "idle" | "frame": inside vbi_decode's loop over the lines of a frame
@@ -79,7 +79,7 @@ VARIABLES pc,        \* "idle" | "frame": inside vbi_decode's loop over the line
 taV == <<tmode, topen, tlastm, tcache, tlatest, tterm, tnfault, tnpk, tact>>
 xV  == <<xcnt, xbuf, xchk, xcur, xout, xmaxidx, xtx, xtxcur, xref, xinfo, xcyc, xevs, xnev, xact>>
 anV == <<alast, acycle, anuid, acache, aevs, aprev, awlast, awrep, aaspect, awrun, axcall, axrun, anrecv, aact,
-         avpid, ahmask, ahorder, avseen, aann, anreg>>
+         avpid, ahmask, ahorder, avseen, aann, anreg, acd, agap>>
 evV == <<hl, hrec, hnextid, emask, hdl, hlog, hntop, hfreed, hact, htx, htxok, hnprobe>>
 ccV == <<ccs, curch, xdsmode, cclast, itv>>
 rdV == <<slot, srch, level, region>>
@@ -99,7 +99,9 @@ AN == INSTANCE Announce WITH MaxRecv <- MaxSteps, UnknownOnce <- TRUE, XdsGuard 
          \* event types and never changes (registrations are modelled here with TtxEvents)
          Labels <- {"p"}, Times <- {"t"}, Bads <- {}, Handlers <- {"h1"}, RegMasks <- {}, Apis <- {}, MaxReg <- 0,
          InitMasks <- {{"NETWORK", "NETWORK_ID", "PROG_ID", "LOCAL_TIME", "ASPECT", "TTX_PAGE", "CAPTION"}},
-         vpid <- avpid, hmask <- ahmask, horder <- ahorder, vseen <- avseen, ann <- aann, nreg <- anreg
+         vpid <- avpid, hmask <- ahmask, horder <- ahorder, vseen <- avseen, ann <- aann, nreg <- anreg,
+         \* time stamp jumps and the countdown are modelled here (chswcd): Announce's Gap / Idle are never taken, acd stays 0
+         cd <- acd, gap <- agap, CdLen <- 40, IdleSteps <- {}, MaxGap <- 0, MaxIdle <- 0
 TE == INSTANCE TtxEvents WITH MaxTop <- 2 * MaxSteps, MaxNested <- 0, FixUp <- TRUE, hl <- hl, rec <- hrec, nextid <- hnextid,
          emask <- emask, dl <- hdl, log <- hlog, ntop <- hntop, freed <- hfreed, lastAct <- hact,
          MaxProbe <- 0, ResetOnActivate <- TRUE, tx <- htx, txok <- htxok, nprobe <- hnprobe
@@ -130,7 +132,9 @@ Max(a, b) == IF a > b THEN a ELSE b
 Tick(a) == nstep' = nstep + 1 /\ lastAct' = a
 NoTtx == UNCHANGED <<taV, ntrip, hflags>>
 NoneOpen == [m \in Mags |-> TA!None]
-Plain(pg) == pg \notin SpecialPages
+\* page 0x900 (2304) is no transmitted page: vbi_fetch_vt_page() composes the TOP index from the BTT / AIT tables whenever
+\* a network has sent them, so whether a fetch of it succeeds is not decided by the page store
+Plain(pg) == pg \notin SpecialPages /\ pg \in 256..2303
 
 \* vbi_teletext_desync(): the pages in transmission are abandoned
 TtxDesync == /\ topen' = NoneOpen /\ tterm' = <<>> /\ ntrip' = [m \in Mags |-> 0]
@@ -148,7 +152,7 @@ XdsReset == /\ xcnt' = [k \in X!Keys |-> 0] /\ xchk' = [k \in X!Keys |-> 0] /\ x
             /\ UNCHANGED <<xbuf, xout, xmaxidx, xref, xinfo, xcyc, xevs, xnev, xact>>
 \* the network record is cleared (memset(&vbi->network, 0))
 NetClear == /\ alast' = [c \in Carriers |-> "0"] /\ acycle' = 0 /\ anuid' = "0" /\ acache' = TRUE /\ aevs' = <<>>
-            /\ aann' = "none" /\ UNCHANGED <<avpid, ahmask, ahorder, avseen, anreg>>
+            /\ aann' = "none" /\ UNCHANGED <<avpid, ahmask, ahorder, avseen, anreg, acd, agap>>
 \* vbi_chsw_reset(vbi, 0)
 AnReset == /\ NetClear /\ awlast' = "none" /\ awrep' = 0 /\ aaspect' = "init" /\ awrun' = 0
            /\ UNCHANGED <<aprev, axcall, axrun, anrecv, aact>>
